@@ -14,6 +14,13 @@
      c05 tags                  → Some=0 None=1 … | script Some=0 …
      c05 place H T ; <value>   → rust <off:cell,…> roto <off:cell,…>
      c05 roundtrip <shape> <value> → ok|bad  (untransform∘transform and scriptView∘transform)
+     c05 gate <R> | <S>        → gate B wf B declared B
+        `check_roto_type` of `Model/BoundaryGate.lean` (the generated arms) on a Rust type
+        `R` = `p <prim>` | `u` | `v <registered name>` | `o R` | `l R` | `r R R` | `d R R` and a signature
+        type as the hook `verif_c05_signature_types` prints it:
+        `S` = `unit` | `other` | `name <g|s> <ident> <decl> <n> <S>…` with `decl` =
+        `prim:<p>` | `runtime:<name>` | `enum:<g|s>:<ident>` | `record:<g|s>:<ident>` | `list:<g|s>:<ident>`;
+        `wf` = `STy.WF` (what the theorems assume of name resolution), `declared` = mentions a script declaration
      c05 prov F1 | F2 | …  → ok <n functions> <n functions whose certificate lists a parameter> | bad <function id> <instruction index> <its certificate>
         with F = `<id> <param vars…> ; I1 ; I2 …`: the provenance check of `Model/BoundaryStore.lean`
         (`checkProg` with the whole-program certificate `certify`) on the lowered items of one script;
@@ -30,6 +37,7 @@ import Driver.Util
 import RotoV.Model.Boundary
 import RotoV.Model.BoundaryStore
 import RotoV.Model.BoundaryDefUse
+import RotoV.Model.BoundaryGate
 
 namespace Driver.C05
 open RotoV RotoV.Boundary RotoV.Gen.BoundaryTables
@@ -358,9 +366,86 @@ def doDefUse (ws : List String) : String :=
     | _, _ => "bad-op"
   | [] => "bad-op"
 
+/-! ### `c05 gate` -/
+
+def nameId (s : String) : Nat := s.hash.toNat
+
+def headOf : String → Option GateHead
+  | "Option" => some .option | "Result" => some .result | "Verdict" => some .verdict | "List" => some .list
+  | _ => none
+
+def parseRTy : Nat → List String → Option (RTy × List String)
+  | 0, _ => none
+  | _ + 1, "u" :: rest => some (.unit, rest)
+  | _ + 1, "p" :: n :: rest => (primOf n).map fun p => (.prim p, rest)
+  | _ + 1, "v" :: n :: rest => some (.val (nameId n) ⟨0, 1⟩, rest)
+  | f + 1, "o" :: rest => (parseRTy f rest).map fun (t, r) => (.option t, r)
+  | f + 1, "l" :: rest => (parseRTy f rest).map fun (t, r) => (.list t, r)
+  | f + 1, "r" :: rest =>
+    (parseRTy f rest).bind fun (t, r) => (parseRTy f r).map fun (e, r2) => (.result t e, r2)
+  | f + 1, "d" :: rest =>
+    (parseRTy f rest).bind fun (t, r) => (parseRTy f r).map fun (e, r2) => (.verdict t e, r2)
+  | _, _ => none
+
+def scopeOf : String → Option NScope
+  | "g" => some .global | "s" => some (.other 1) | _ => none
+
+def identOf (s : String) : TIdent :=
+  match headOf s, primOf s with
+  | some h, _ => .generic h
+  | _, some p => .prim p
+  | _, _ => .other (nameId s)
+
+/-- what the hook says a name denotes; a declaration is a built-in exactly when its OWN name is
+    the global one of a generic built-in (scripts cannot declare into the global scope) -/
+def declOf (s : String) : Option TyDecl :=
+  match s.splitOn ":" with
+  | ["prim", p] => (primOf p).map .prim
+  | ["runtime", n] => some (.runtime (nameId n))
+  | ["enum", "g", i] =>
+    match headOf i with
+    | some .list => some (.scriptEnum [])
+    | some h => some (.builtin h)
+    | none => some (.scriptEnum [])
+  | ["enum", "s", _] => some (.scriptEnum [])
+  | ["record", _, _] => some (.scriptRecord [])
+  | ["list", "g", "List"] => some (.builtin .list)
+  | ["list", _, _] => some (.scriptRecord [])
+  | _ => none
+
+def parseSTy : Nat → List String → Option (STy × List String)
+  | 0, _ => none
+  | _ + 1, "unit" :: rest => some (.unit, rest)
+  | _ + 1, "other" :: rest => some (.other, rest)
+  | f + 1, "name" :: sc :: i :: d :: n :: rest =>
+    match scopeOf sc, declOf d, n.toNat? with
+    | some sc, some d, some 0 => some (.name0 sc (identOf i) d, rest)
+    | some sc, some d, some 1 => (parseSTy f rest).map fun (a, r) => (.name1 sc (identOf i) d a, r)
+    | some sc, some d, some 2 =>
+      (parseSTy f rest).bind fun (a, r) => (parseSTy f r).map fun (b, r2) => (.name2 sc (identOf i) d a b, r2)
+    | some sc, some d, some (k + 3) =>
+      -- the arguments are skipped: the gate refuses every name of more than two arguments
+      let rec skip : Nat → Nat → List String → Option (List String)
+        | 0, _, r => some r
+        | _, 0, _ => none
+        | m + 1, g + 1, r => (parseSTy f r).bind fun (_, r2) => skip m g r2
+      (skip (k + 3) (k + 3) rest).map fun r => (.nameN sc (identOf i) d k, r)
+    | _, _, _ => none
+  | _, _ => none
+
+def doGate (args : List String) : String :=
+  match args.splitOn "|" with
+  | [r, s] =>
+    match parseRTy (r.length + 1) r, parseSTy (s.length + 1) s with
+    | some (r, []), some (s, []) =>
+      s!"gate {gate gateArms r s} wf {s.WF} declared {s.mentionsDeclared}"
+    | _, _ => "bad-op"
+  | _ => "bad-op"
+
 def handle (args : List String) : String :=
   match args with
   | "prov" :: rest => doProv rest
+  | "gate" :: rest => doGate rest
   | "defuse" :: rest => doDefUse rest
   | "layout" :: h :: ty =>
     match parseHost h, parseTyAll ty with
